@@ -43,6 +43,9 @@ CLAIMS = {
     "C12": ("every arithmetic operator, @, dot, ddot, .T, reducers (positive / negative / tuple axes, method and numpy-function form), Det / Inv / Trace / Transpose / TensorProd / Norm, einsum / where / linalg.solve / det / inv / eigh, ufunc out= / where= forms, reshape / integrate, FeArray.broadcast and Field objects on either side, for operands field / constant in every order and tensor ranks 0-4 on 14 shape classes (Ne == nPg == dim collisions, size-1 axes, controls), plus random expression trees of depth <= 4, is compared with an explicit double loop over (e, p) of plain numpy on plain slices; the result type is compared with the (Ne, nPg)-axes rule",
             "elementwise arithmetic between operands of equal rank or with a rank-0 operand; square tensor axes d in {1,2,3,4}",
             "reference-model oracle (explicit per-(e,p) loop) on executed FeArray expressions"),
+    "C13": ("a grammar of user forms (diffusion, anisotropic and non-symmetric diffusion, scalar and vector advection, scalar and vector mass, isotropic elasticity in five algebraically equal spellings, scalar and vector sources), each in several spellings and with constant / per-element / per-Gauss-point / coordinate-dependent coefficients, is integrated with BiLinearForm / LinearForm.Integrate_e on every element type and both quadrature rules and compared with the built-in operator (or, for non-symmetric forms, with a first-principles einsum reference on the same shape-function tables); Assemble against the loop scatter-add; WeakForms simulations against the dedicated Thermal / Elastic ones (static, parabolic, hyperbolic) and against the analytic advection-diffusion solution",
+            "groups <= 40 elements; same matrixType on both sides; time-dependent twins on element types where both rules integrate the stiffness exactly",
+            "reference-model oracle (built-in operators / first-principles einsum / dedicated simulations) on executed user forms"),
 }
 
 
